@@ -78,7 +78,8 @@ def check(ctx):
     ctx.check(bool(resets), "already-called/suppress-once", q + " | reset of _suppressAlreadyCalled",
               "the one-shot suppression flag is never reset: every later result would be swallowed, not exactly one")
     # there must be a raise AlreadyCalledError reachable on the called branch
-    raises = g.ids(lambda n: n.kind == "stmt" and isinstance(n.ast, ast.Raise) and "AlreadyCalledError" in src(n.ast))
+    # every explicit raise of this function plays the role "second result refused" (the exception may be built by a helper)
+    raises = g.ids(lambda n: n.kind == "stmt" and isinstance(n.ast, ast.Raise))
     ctx.check(bool(raises) and all(g.guarded(r, lambda e: _test_is(e, "self.called"), True) for r in raises),
               "already-called/raise", q, "AlreadyCalledError is not raised (only) on the already-called branch")
     # ... and only once the one-shot suppression has been ruled out: a raise reachable while the flag is still
@@ -221,6 +222,9 @@ MUTANTS += [
     Mutant("errback-not-reaching-start", DEFER, "        self._startRunCallbacks(fail)\n", "        if not self.called:\n            self._startRunCallbacks(fail)\n"),
 ]
 SILENT = [
+    Silent("already-called-error-built-by-helper", DEFER, "            raise AlreadyCalledError\n        if self.debug:",
+           "            raise self._alreadyCalledError()\n        if self.debug:",
+           more=[(DEFER, "    def _continuation(self) -> _CallbackChain:", "    def _alreadyCalledError(self):\n        return AlreadyCalledError()\n\n    def _continuation(self) -> _CallbackChain:")]),
     Silent("rename-local", DEFER, "            canceller = self._canceller\n            if canceller:\n                canceller(self)\n",
            "            cancelFn = self._canceller\n            if cancelFn:\n                cancelFn(self)\n"),
     Silent("invert-branches", DEFER, "            if canceller:\n                canceller(self)\n            else:\n                # Arrange to eat the callback that will eventually be fired\n                # since there was no real canceller.\n                self._suppressAlreadyCalled = True\n",
